@@ -362,7 +362,7 @@ def run_routes(job, ob):
 PRECISION_SCRIPT = r'''
 import json, sys
 import jax, jax.numpy as jnp
-name, order = sys.argv[1], sys.argv[2]
+name, order, ckdir = sys.argv[1], sys.argv[2], sys.argv[3]
 from mdpax.problems import Forest
 from mdpax.problems.perishable_inventory.de_moor_single_product import DeMoorSingleProductPerishable as DM
 import mdpax.solvers as ms
@@ -370,38 +370,63 @@ cls = {"vi": ms.ValueIteration, "pi": ms.PolicyIteration, "rvi": ms.RelativeValu
 kw = dict(verbose=0, epsilon=1e-9)
 if name == "pvi": kw["period"] = 2
 if name != "rvi": kw["gamma"] = 0.9
+dmkw = dict(max_demand=3, max_useful_life=2, lead_time=1, max_order_quantity=2)
 x64_before = bool(jax.config.jax_enable_x64)
 if order == "problem-first":
-    pb = DM(max_demand=3, max_useful_life=2, lead_time=1, max_order_quantity=2)
+    pb = DM(**dmkw)
     s = cls(pb, **kw)
-else:
+elif order == "solver-first":
     # solver first (any solver construction enables 64-bit mode), then the problem actually solved
     cls(Forest(S=3), **kw)
-    pb = DM(max_demand=3, max_useful_life=2, lead_time=1, max_order_quantity=2)
+    pb = DM(**dmkw)
     s = cls(pb, **kw)
+elif order == "config-only":
+    from mdpax.problems.perishable_inventory.de_moor_single_product import DeMoorSingleProductPerishableConfig as DMC
+    s = cls(config=cls.Config(problem=DMC(**dmkw), **kw))
+    pb = s.problem
+elif order == "make-checkpoint":
+    jax.config.update("jax_enable_x64", True)
+    s = cls(DM(**dmkw), checkpoint_dir=ckdir, checkpoint_frequency=1, **kw)
+    s.solve(1); s.checkpoint_manager.wait_until_finished()
+    print("@@", json.dumps(dict(made=True))); sys.exit(0)
+else:  # restore in a fresh process
+    s = cls.restore(ckdir)
+    pb = s.problem
 st = s.solve(2)
 print("@@", json.dumps(dict(x64_before=x64_before, gamma=str(jnp.asarray(s.gamma).dtype), values=str(st.values.dtype), initial=str(s._initialize_values(s.batched_states).dtype),
-                            gamma_exact=float(s.gamma) == (1.0 if name == "rvi" else 0.9), tables=str(pb.demand_probabilities.dtype))))
+                            gamma_exact=float(s.gamma) == (1.0 if name == "rvi" else 0.9), tables=str(pb.demand_probabilities.dtype), costs=str(pb.cost_components.dtype))))
 '''
+
+
+def _fresh(name, order, ckdir):
+    env = dict(os.environ)
+    env.pop("JAX_ENABLE_X64", None)
+    cp = subprocess.run([sys.executable, "-c", PRECISION_SCRIPT, name, order, ckdir], env=env, capture_output=True, text=True, timeout=900)
+    line = [l for l in cp.stdout.splitlines() if l.startswith("@@")]
+    return (json.loads(line[0][2:]) if line else None), cp.stderr[-300:]
 
 
 def run_precision(job, ob):
     name = job["solver"]
-    env = dict(os.environ)
-    env.pop("JAX_ENABLE_X64", None)
-    for order in ("problem-first", "solver-first"):
-        cp = subprocess.run([sys.executable, "-c", PRECISION_SCRIPT, name, order], env=env, capture_output=True, text=True, timeout=600)
-        line = [l for l in cp.stdout.splitlines() if l.startswith("@@")]
-        cex = lambda m, order=order: dict(kind="precision", solver=name, order=order)
-        if not line:
-            ob.prove(f"precision-run[{order}]", [], False, cex=cex, kind="fresh-process run completes")
-            ob.extra.setdefault("precision_errors", []).append(cp.stderr[-300:])
-            continue
-        r = json.loads(line[0][2:])
-        ob.extra.setdefault("precision", []).append(dict(order=order, **r))
-        ob.prove(f"fresh-process-starts-without-x64[{order}]", [], r["x64_before"] is False, cex=cex)
-        ob.prove(f"gamma-float64[{order}]", [], r["gamma"] == "float64" and r["gamma_exact"], cex=cex, kind="discount factor held in float64 (not rounded to float32)")
-        ob.prove(f"values-float64[{order}]", [], r["values"] == "float64" and r["initial"] == "float64", cex=cex, kind="values computed and returned in float64")
+    base = tempfile.mkdtemp(prefix="mdpv-prec-")
+    try:
+        ckdir = os.path.join(base, "ck")
+        _fresh(name, "make-checkpoint", ckdir)
+        for order in ("problem-first", "solver-first", "config-only", "restore"):
+            r, err = _fresh(name, order, ckdir)
+            cex = lambda m, order=order: dict(kind="precision", solver=name, order=order)
+            if r is None:
+                ob.prove(f"precision-run[{order}]", [], False, cex=cex, kind="fresh-process run completes")
+                ob.extra.setdefault("precision_errors", []).append(err)
+                continue
+            ob.extra.setdefault("precision", []).append(dict(order=order, **r))
+            ob.prove(f"fresh-process-starts-without-x64[{order}]", [], r["x64_before"] is False, cex=cex)
+            ob.prove(f"gamma-float64[{order}]", [], r["gamma"] == "float64" and r["gamma_exact"], cex=cex, kind="discount factor held in float64 (not rounded to float32)")
+            ob.prove(f"values-float64[{order}]", [], r["values"] == "float64" and r["initial"] == "float64", cex=cex, kind="values computed and returned in float64")
+            ob.prove(f"problem-tables-float64[{order}]", [], r["tables"] == "float64" and r["costs"] == "float64", cex=cex,
+                     kind="the problem's own probability/cost tables are float64 (no float32-rounded inputs to the float64 sweeps)")
+    finally:
+        shutil.rmtree(base, ignore_errors=True)
     return ob.result()
 
 
